@@ -23,6 +23,16 @@ type FnIndex struct {
 	stores    map[ssa.Value][]*ssa.Store
 	loops     map[*ssa.Function][]*Loop
 	edgeDom   map[edgeKey]map[*ssa.BasicBlock]bool
+	built     bool
+	// slices that exist only for the analysis: the part of s an index loop visits
+	virtSlices map[string]ssa.Value
+	allocNames map[*ssa.Alloc]string
+	// fields of local struct variables as cells of their own (fieldCell)
+	fieldCells   map[*ssa.Alloc]map[int]*ssa.Alloc
+	escapedCells map[*ssa.Alloc]bool
+	raCache      map[ssa.Value]ssa.Value
+	raBusy       map[ssa.Value]bool
+	ready        bool
 }
 
 type edgeKey struct {
@@ -61,23 +71,296 @@ func (c *Ctx) Index(f *ssa.Function) *FnIndex {
 		}
 	}
 	walk(r)
+	// the stores of every cell; an address that is itself a pointer read from
+	// a cell (`p := &v` handed to a helper or a literal, then `*p = ...`) is
+	// resolved to the cell it points to once the plain cells are known.
+	var late []*ssa.Store
 	for _, f := range x.Fns {
 		for _, b := range f.Blocks {
 			for _, in := range b.Instrs {
 				if st, ok := in.(*ssa.Store); ok {
-					a := x.ResolveAddr(st.Addr)
+					a := x.resolveFreeVar(st.Addr)
+					if _, isLoad := a.(*ssa.UnOp); isLoad {
+						late = append(late, st)
+						continue
+					}
+					if _, isField := a.(*ssa.FieldAddr); isField {
+						late = append(late, st)
+						continue
+					}
 					x.stores[a] = append(x.stores[a], st)
 				}
 			}
 		}
 	}
+	x.built = true
+	for _, st := range late {
+		a := x.ResolveAddr(st.Addr)
+		x.stores[a] = append(x.stores[a], st)
+	}
+	// A branch condition that was first put in a variable (`ok := v != nil;
+	// if ok`, or the result cell of an inlined helper) is replaced by the
+	// value the variable holds there (the unique reaching store; its
+	// definition dominates the branch), so that every rule sees the test
+	// itself.
+	for _, f := range x.Fns {
+		for _, b := range f.Blocks {
+			if len(b.Instrs) == 0 {
+				continue
+			}
+			if iff, ok := b.Instrs[len(b.Instrs)-1].(*ssa.If); ok {
+				if o := x.Origin(iff.Cond); o != iff.Cond && types.Identical(o.Type().Underlying(), iff.Cond.Type().Underlying()) {
+					delRef(iff.Cond, iff)
+					iff.Cond = o
+					addRef(o, iff)
+				}
+				x.canonBranch(b, iff)
+			}
+		}
+	}
+	x.ready = true
 	c.fnIndexes[r] = x
 	return x
 }
 
-// ResolveAddr maps a free variable of a closure to the cell bound in the
-// enclosing function (transitively).
+// fieldCell returns the analysis-only cell that stands for field fa.Field of the
+// local struct variable al (nil when al is not a struct variable). The cell is
+// not part of any block; it carries the variable's block, position and a name
+// "var.field". When the struct's address leaves the function other than into
+// inlined code (a call argument, a return, a heap store), the field can be
+// written elsewhere: the cell is marked as escaped and its reads are never
+// resolved to a stored value.
+func (x *FnIndex) fieldCell(al *ssa.Alloc, fa *ssa.FieldAddr) *ssa.Alloc {
+	pt, ok := al.Type().(*types.Pointer)
+	if !ok {
+		return nil
+	}
+	st, ok := pt.Elem().Underlying().(*types.Struct)
+	if !ok || fa.Field >= st.NumFields() {
+		return nil
+	}
+	if x.fieldCells == nil {
+		x.fieldCells = map[*ssa.Alloc]map[int]*ssa.Alloc{}
+		x.escapedCells = map[*ssa.Alloc]bool{}
+	}
+	m := x.fieldCells[al]
+	if m == nil {
+		m = map[int]*ssa.Alloc{}
+		x.fieldCells[al] = m
+	}
+	if c, ok := m[fa.Field]; ok {
+		return c
+	}
+	name := al.Comment
+	if name == "" || name == "complit" {
+		name = structName(al.Type())
+	}
+	c := &ssa.Alloc{Comment: name + "." + st.Field(fa.Field).Name(), Heap: al.Heap}
+	ssa.XSetType(c, types.NewPointer(st.Field(fa.Field).Type()))
+	ssa.XSetPos(c, al.Pos())
+	ssa.XSetBlock(c, al.Block())
+	m[fa.Field] = c
+	if x.structEscapes(al, true, 0) {
+		x.escapedCells[c] = true
+	}
+	return c
+}
+
+// structEscapes: the address of the struct variable reaches code the index does
+// not see (or the struct is assigned as a whole).
+func (x *FnIndex) structEscapes(v ssa.Value, isPtr bool, d int) bool {
+	// isPtr: v is a pointer to the struct (the variable's address or a copy of it);
+	// otherwise v is the address of a cell that holds such a pointer
+	if d > 6 {
+		return true
+	}
+	r := v.Referrers()
+	if r == nil {
+		return true
+	}
+	for _, u := range *r {
+		switch t := u.(type) {
+		case *ssa.DebugRef:
+		case *ssa.FieldAddr:
+			if !isPtr {
+				return true
+			}
+		case *ssa.UnOp:
+			if t.Op != token.MUL {
+				return true
+			}
+			if !isPtr {
+				// the pointer read back out of its cell
+				if x.structEscapes(t, true, d+1) {
+					return true
+				}
+			}
+			// isPtr: a read of the whole struct, harmless
+		case *ssa.Store:
+			if t.Addr == v {
+				if isPtr {
+					return true // the struct is overwritten as a whole
+				}
+				continue // the pointer variable is assigned
+			}
+			// v is stored somewhere: only into a local pointer cell
+			cell, isCell := t.Addr.(*ssa.Alloc)
+			if !isCell || !isPtr {
+				return true
+			}
+			if x.structEscapes(cell, false, d+1) {
+				return true
+			}
+		case *ssa.MakeClosure:
+			lit, ok := t.Fn.(*ssa.Function)
+			if !ok {
+				return true
+			}
+			for i, b := range t.Bindings {
+				if b == v && i < len(lit.FreeVars) {
+					if x.structEscapes(lit.FreeVars[i], isPtr, d+1) {
+						return true
+					}
+				}
+			}
+		default:
+			return true
+		}
+	}
+	return false
+}
+
+// canonBranch brings a two-way branch into one canonical form, so that the
+// rules need not know every way of writing a test: `if !c` and `if a != b`
+// become `if c` / `if a == b` with the successors exchanged (when the
+// negated value has no other use; nil tests are kept as `v != nil` instead), and a comparison with the constant on the
+// left is mirrored (`nil == v` -> `v == nil`, `2 <= n` -> `n >= 2`).
+func (x *FnIndex) canonBranch(b *ssa.BasicBlock, iff *ssa.If) {
+	if len(b.Succs) != 2 || b.Succs[0] == b.Succs[1] {
+		return
+	}
+	soleUse := func(v ssa.Value) bool {
+		r := v.Referrers()
+		if r == nil {
+			return false
+		}
+		for _, u := range *r {
+			if u == ssa.Instruction(iff) {
+				continue
+			}
+			if _, isDbg := u.(*ssa.DebugRef); isDbg {
+				continue
+			}
+			return false
+		}
+		return true
+	}
+	for i := 0; i < 4; i++ {
+		u, ok := iff.Cond.(*ssa.UnOp)
+		if !ok || u.Op != token.NOT || !soleUse(u) {
+			break
+		}
+		inner := x.Origin(u.X)
+		if !types.Identical(inner.Type().Underlying(), iff.Cond.Type().Underlying()) {
+			break
+		}
+		delRef(iff.Cond, iff)
+		iff.Cond = inner
+		addRef(inner, iff)
+		b.Succs[0], b.Succs[1] = b.Succs[1], b.Succs[0]
+	}
+	bo, ok := iff.Cond.(*ssa.BinOp)
+	if !ok {
+		return
+	}
+	_, lc := bo.X.(*ssa.Const)
+	_, rc := bo.Y.(*ssa.Const)
+	if lc && !rc {
+		mirror := map[token.Token]token.Token{token.EQL: token.EQL, token.NEQ: token.NEQ, token.LSS: token.GTR, token.LEQ: token.GEQ, token.GTR: token.LSS, token.GEQ: token.LEQ}
+		if m, ok := mirror[bo.Op]; ok {
+			bo.X, bo.Y = bo.Y, bo.X
+			bo.Op = m
+		}
+	}
+	// nil tests are kept as `v != nil` (true edge: v is there), every other
+	// equality test as `a == b`
+	_, _, isNilTest := nilCheck(bo)
+	if ((bo.Op == token.NEQ && !isNilTest) || (bo.Op == token.EQL && isNilTest)) && soleUse(bo) {
+		if bo.Op == token.NEQ {
+			bo.Op = token.EQL
+		} else {
+			bo.Op = token.NEQ
+		}
+		b.Succs[0], b.Succs[1] = b.Succs[1], b.Succs[0]
+	}
+}
+
+// ResolveAddr maps an address to the cell it denotes: a free variable of a
+// closure to the cell bound in the enclosing function (transitively), and a
+// pointer value read from a cell to what that pointer was set to (`&v`, a
+// field address) when a single store reaches the read.
 func (x *FnIndex) ResolveAddr(v ssa.Value) ssa.Value {
+	switch v.(type) {
+	case *ssa.Alloc, *ssa.Global, *ssa.Const, nil:
+		return v
+	}
+	if r, ok := x.raCache[v]; ok {
+		return r
+	}
+	if x.raBusy[v] {
+		return v // resolving v needs v: leave it as it is
+	}
+	if x.raBusy == nil {
+		x.raBusy = map[ssa.Value]bool{}
+	}
+	x.raBusy[v] = true
+	r := x.resolveAddr(v)
+	delete(x.raBusy, v)
+	if x.ready {
+		if x.raCache == nil {
+			x.raCache = map[ssa.Value]ssa.Value{}
+		}
+		x.raCache[v] = r
+	}
+	return r
+}
+
+func (x *FnIndex) resolveAddr(v ssa.Value) ssa.Value {
+	for i := 0; i < 16; i++ {
+		v = x.resolveFreeVar(v)
+		if fa, isField := v.(*ssa.FieldAddr); isField && x.built {
+			// a field of a local struct variable (`var ec errCollector` ... ec.msgs, also
+			// through a pointer to it handed to an inlined method or captured by a literal)
+			// is a variable of its own
+			if al, isAl := x.ResolveAddr(fa.X).(*ssa.Alloc); isAl && al != nil {
+				if fc := x.fieldCell(al, fa); fc != nil {
+					return fc
+				}
+			}
+			return v
+		}
+		u, ok := v.(*ssa.UnOp)
+		if !ok || u.Op != token.MUL || !x.built {
+			return v
+		}
+		if _, isPtr := u.Type().Underlying().(*types.Pointer); !isPtr {
+			return v
+		}
+		o := x.Origin(u)
+		if o == ssa.Value(u) {
+			return v
+		}
+		switch o.(type) {
+		case *ssa.Alloc, *ssa.FieldAddr, *ssa.FreeVar, *ssa.IndexAddr, *ssa.Global:
+			v = o
+		default:
+			return v
+		}
+	}
+	return v
+}
+
+func (x *FnIndex) resolveFreeVar(v ssa.Value) ssa.Value {
 	for i := 0; i < 16; i++ {
 		fv, ok := v.(*ssa.FreeVar)
 		if !ok {
@@ -219,7 +502,10 @@ func (x *FnIndex) outsideStoresInterfere(al *ssa.Alloc, ld *ssa.UnOp) bool {
 // (captured parameters, `rr := r` copies, temporaries) resolves to the stored
 // value; a cell assigned several times resolves when exactly one store of the
 // same function reaches the load and no function literal writes the cell.
-func (x *FnIndex) Origin(v ssa.Value) ssa.Value {
+func (x *FnIndex) Origin(v ssa.Value) ssa.Value { return x.originTrace(v, nil) }
+
+// originTrace is Origin reporting every variable read it looks through.
+func (x *FnIndex) originTrace(v ssa.Value, rec func(*ssa.UnOp)) ssa.Value {
 	for i := 0; i < 48; i++ {
 		switch t := v.(type) {
 		case *ssa.UnOp:
@@ -231,10 +517,17 @@ func (x *FnIndex) Origin(v ssa.Value) ssa.Value {
 			if !ok {
 				return v
 			}
+			if x.escapedCells[al] {
+				return v
+			}
+			if rec != nil {
+				rec(t)
+			}
 			st := x.stores[al]
-			if len(st) == 1 && al.Parent() != t.Parent() && st[0].Block() == al.Block() {
+			if len(st) == 1 && al.Parent() != t.Parent() && (st[0].Block() == al.Block() || x.storedBeforeLiteral(st[0], t.Parent(), al.Parent())) {
 				// a cell captured by this function literal and assigned once
-				// by the enclosing function (`rr := r`, spilled parameters)
+				// by the enclosing function (`rr := r`, spilled parameters), in
+				// the declaration's block or before the literal is created
 				v = st[0].Val
 				continue
 			}
@@ -253,7 +546,7 @@ func (x *FnIndex) Origin(v ssa.Value) ssa.Value {
 			var first ssa.Value
 			same := true
 			for _, e := range t.Edges {
-				o := x.Origin(e)
+				o := x.originTrace(e, nil)
 				if first == nil {
 					first = o
 				} else if first != o {
@@ -271,8 +564,69 @@ func (x *FnIndex) Origin(v ssa.Value) ssa.Value {
 	return v
 }
 
-// Cell returns the variable cell (Alloc) a load reads, or nil.
+// storedBeforeLiteral: the store (in function owner) dominates the creation
+// of the literal lit (or of the literal of owner that encloses lit): whenever
+// the literal runs, the store has happened.
+func (x *FnIndex) storedBeforeLiteral(st *ssa.Store, lit, owner *ssa.Function) bool {
+	if st.Parent() != owner {
+		return false
+	}
+	for lit != nil && lit.Parent() != owner {
+		lit = lit.Parent()
+	}
+	if lit == nil {
+		return false
+	}
+	mc := x.closureOf[lit]
+	if mc == nil || mc.Parent() != owner || !domInstr(st, mc) {
+		return false
+	}
+	// the store must not run again for the same cell after the literal was created: every
+	// loop around the store also re-creates the cell (a loop variable declared outside the
+	// loop is overwritten by the next iteration while earlier literals still hold it)
+	al, ok := st.Addr.(*ssa.Alloc)
+	if !ok {
+		return false
+	}
+	for _, l := range x.Loops(owner) {
+		if l.Blocks[st.Block()] && !l.Blocks[al.Block()] {
+			return false
+		}
+	}
+	return true
+}
+
+// Cell returns the variable cell (Alloc) whose value a load reads, or nil.
+// Copies are looked through: when the loaded value is itself (by the single
+// reaching store) a read of another variable — `rr := r`, a parameter of an
+// inlined helper, a result handed back by one — the last variable in that
+// chain of copies is returned, so that two reads of "the same variable" agree
+// whether or not a helper or a local copy lies in between.
 func (x *FnIndex) Cell(v ssa.Value) *ssa.Alloc {
+	if x.directCell(v) == nil {
+		return nil
+	}
+	var last *ssa.UnOp
+	x.originTrace(v, func(u *ssa.UnOp) { last = u })
+	if last != nil {
+		return x.directCell(last)
+	}
+	return x.directCell(v)
+}
+
+// readsRangeIndex: the value is (a copy of) the counter of a `for i := range`
+// loop; it returns the counter's cell.
+func (x *FnIndex) readsRangeIndex(v ssa.Value) *ssa.Alloc {
+	var out *ssa.Alloc
+	x.originTrace(v, func(u *ssa.UnOp) {
+		if a := x.directCell(u); a != nil && a.Comment == "rangeindex" {
+			out = a
+		}
+	})
+	return out
+}
+
+func (x *FnIndex) directCell(v ssa.Value) *ssa.Alloc {
 	if u, ok := v.(*ssa.UnOp); ok && u.Op == token.MUL {
 		if al, ok := x.ResolveAddr(u.X).(*ssa.Alloc); ok {
 			return al
@@ -682,11 +1036,76 @@ func (x *FnIndex) GuardsOf(b *ssa.BasicBlock) []Guard {
 			}
 			cond, flip = u.X, !flip
 		}
+		cond = x.Origin(cond)
 		if x.edgeDominated(d, 0)[b] {
-			out = append(out, Guard{iff, cond, !flip})
+			for _, f := range x.implied(cond, !flip, 0) {
+				out = append(out, Guard{iff, f.v, f.pol})
+			}
 		}
 		if x.edgeDominated(d, 1)[b] {
-			out = append(out, Guard{iff, cond, flip})
+			for _, f := range x.implied(cond, flip, 0) {
+				out = append(out, Guard{iff, f.v, f.pol})
+			}
+		}
+	}
+	return out
+}
+
+type boolFact struct {
+	v   ssa.Value
+	pol bool
+}
+
+// implied lists what follows from "v has the truth value pol": v itself, the
+// operand of a negation, and for a short-circuit value kept in a variable
+// (`no := a || b`: a phi of true constants and b) the operands it was computed
+// from: `no` false gives a false and b false; `all := a && b` true gives both true.
+func (x *FnIndex) implied(v ssa.Value, pol bool, d int) []boolFact {
+	v = x.Origin(v)
+	out := []boolFact{{v, pol}}
+	if d > 6 {
+		return out
+	}
+	switch t := v.(type) {
+	case *ssa.UnOp:
+		if t.Op == token.NOT {
+			out = append(out, x.implied(t.X, !pol, d+1)...)
+		}
+	case *ssa.Phi:
+		// a || b: edges are `true` from the blocks that tested an operand true, and the last operand
+		// a && b: edges are `false` ..., and the last operand
+		short := !pol // the constant the short-circuit edges carry
+		okShape := true
+		var rest []ssa.Value
+		var shortPreds []*ssa.BasicBlock
+		for i, e := range t.Edges {
+			if bv, isC := constBool(e); isC {
+				if bv != short {
+					okShape = false
+				}
+				shortPreds = append(shortPreds, t.Block().Preds[i])
+			} else {
+				rest = append(rest, e)
+			}
+		}
+		if !okShape || len(rest) != 1 || len(shortPreds) == 0 {
+			return out
+		}
+		out = append(out, x.implied(rest[0], pol, d+1)...)
+		for _, p := range shortPreds {
+			if len(p.Instrs) == 0 || len(p.Succs) != 2 {
+				continue
+			}
+			if pi, ok := p.Instrs[len(p.Instrs)-1].(*ssa.If); ok {
+				// the operand tested in p sent control straight here with the constant `short`
+				switch {
+				case p.Succs[0] == t.Block() && p.Succs[1] != t.Block():
+					// operand true -> short-circuit; we know the value is pol = !short, so that did not happen
+					out = append(out, x.implied(pi.Cond, false, d+1)...)
+				case p.Succs[1] == t.Block() && p.Succs[0] != t.Block():
+					out = append(out, x.implied(pi.Cond, true, d+1)...)
+				}
+			}
 		}
 	}
 	return out
@@ -771,25 +1190,116 @@ func constString(v ssa.Value) (string, bool) {
 }
 
 // lenCmp decodes comparisons of len(X) with an integer constant into the
-// truth of "len(X) >= 1" when the condition holds: returns (X, nonEmptyWhenTrue, ok)
-// where nonEmptyWhenTrue says whether cond==true implies len>0 (true) or len==0 (false).
-func lenCmp(cond ssa.Value) (arg ssa.Value, nonEmptyWhenTrue bool, ok bool) {
+const lenInf = int64(1) << 62
+
+// lenTest decomposes a condition that compares one length with a constant,
+// however it is written (`len(r) > 1`, `2 <= len(r)`, `len(r)-1 >= 1`,
+// `n < 2` with n := len(r)): it returns the argument of len and the interval
+// of len(arg) implied by the true edge [tlo,thi] and by the false edge
+// [flo,fhi] (lenInf = unbounded).
+func (x *FnIndex) lenTest(cond ssa.Value) (arg ssa.Value, tlo, thi, flo, fhi int64, ok bool) {
 	b, isb := cond.(*ssa.BinOp)
 	if !isb {
-		return nil, false, false
+		return
 	}
-	la, isLen := builtinCall(b.X, "len")
-	k, isK := constInt(b.Y)
-	if !isLen || !isK {
-		return nil, false, false
+	switch b.Op {
+	case token.LSS, token.LEQ, token.GTR, token.GEQ, token.EQL, token.NEQ:
+	default:
+		return
 	}
-	switch {
-	case b.Op == token.GTR && k == 0, b.Op == token.GEQ && k == 1, b.Op == token.NEQ && k == 0:
-		return la[0], true, true
-	case b.Op == token.EQL && k == 0, b.Op == token.LSS && k == 1, b.Op == token.LEQ && k == 0:
-		return la[0], false, true
+	var lens []ssa.Value
+	var walk func(v ssa.Value, d int)
+	walk = func(v ssa.Value, d int) {
+		if d > 8 {
+			return
+		}
+		v = x.Origin(v)
+		switch t := v.(type) {
+		case *ssa.BinOp:
+			if t.Op == token.ADD || t.Op == token.SUB {
+				walk(t.X, d+1)
+				walk(t.Y, d+1)
+			}
+		case *ssa.Convert:
+			walk(t.X, d+1)
+		case *ssa.Call:
+			if a, isLen := builtinCall(t, "len"); isLen {
+				lens = append(lens, a[0])
+			}
+		}
 	}
-	return nil, false, false
+	walk(b.X, 0)
+	walk(b.Y, 0)
+	if len(lens) != 1 {
+		return
+	}
+	if bt, isBasic := b.X.Type().Underlying().(*types.Basic); !isBasic || bt.Info()&types.IsInteger == 0 {
+		return
+	}
+	d := x.symInt(b.X).add(x.symInt(b.Y), -1)
+	L := x.symLen(lens[0])
+	op := b.Op
+	var k int64
+	found := false
+	for _, sgn := range []int64{1, -1} {
+		e := d.add(L, -sgn)
+		if len(e.terms) != 0 {
+			continue
+		}
+		found = true
+		if sgn == 1 { // L + c OP 0  <=>  L OP -c
+			k = -e.k
+		} else { // -L + c OP 0  <=>  L flip(OP) c
+			k = e.k
+			switch op {
+			case token.LSS:
+				op = token.GTR
+			case token.LEQ:
+				op = token.GEQ
+			case token.GTR:
+				op = token.LSS
+			case token.GEQ:
+				op = token.LEQ
+			}
+		}
+		break
+	}
+	if !found {
+		return
+	}
+	clamp := func(lo, hi int64) (int64, int64) {
+		if lo < 0 {
+			lo = 0
+		}
+		return lo, hi
+	}
+	switch op {
+	case token.LSS:
+		tlo, thi = clamp(0, k-1)
+		flo, fhi = clamp(k, lenInf)
+	case token.LEQ:
+		tlo, thi = clamp(0, k)
+		flo, fhi = clamp(k+1, lenInf)
+	case token.GTR:
+		tlo, thi = clamp(k+1, lenInf)
+		flo, fhi = clamp(0, k)
+	case token.GEQ:
+		tlo, thi = clamp(k, lenInf)
+		flo, fhi = clamp(0, k-1)
+	case token.EQL:
+		tlo, thi = k, k
+		flo, fhi = 0, lenInf
+		if k == 0 {
+			flo = 1
+		}
+	case token.NEQ:
+		flo, fhi = k, k
+		tlo, thi = 0, lenInf
+		if k == 0 {
+			tlo = 1
+		}
+	}
+	return lens[0], tlo, thi, flo, fhi, true
 }
 
 // ---- loops ------------------------------------------------------------------
@@ -888,33 +1398,237 @@ func (x *FnIndex) rangedSlice(v ssa.Value) (ssa.Value, *Loop, bool) {
 	if !ok {
 		return nil, nil, false
 	}
-	il, ok := ia.Index.(*ssa.UnOp)
+	il, ok := x.lastLoad(ia.Index).(*ssa.UnOp)
 	if !ok || il.Op != token.MUL {
 		return nil, nil, false
 	}
 	al, ok := il.X.(*ssa.Alloc)
-	if !ok || al.Comment != "rangeindex" {
+	if !ok {
 		return nil, nil, false
+	}
+	if al.Comment != "rangeindex" {
+		if ri := x.readsRangeIndex(ia.Index); ri != nil {
+			// `for i := range s { s[i] }`: the counter of a range loop over the same slice
+			for l := x.InnermostLoop(ia.Block()); l != nil; l = x.parentLoop(l) {
+				adv := false
+				for _, st := range x.stores[ri] {
+					if st.Block() == l.Head {
+						adv = true
+					}
+				}
+				if !adv {
+					continue
+				}
+				if iff, ok := l.Head.Instrs[len(l.Head.Instrs)-1].(*ssa.If); ok {
+					if bo, ok := iff.Cond.(*ssa.BinOp); ok && bo.Op == token.LSS {
+						if a, isLen := builtinCall(x.Origin(bo.Y), "len"); isLen && x.sameValue(a[0], ia.X) {
+							if cell := x.Cell(ia.X); cell != nil {
+								for _, st := range x.stores[cell] {
+									if l.Blocks[st.Block()] && st.Parent() == cell.Parent() {
+										return nil, nil, false
+									}
+								}
+							}
+							return ia.X, l, true
+						}
+					}
+				}
+			}
+			return nil, nil, false
+		}
+		return x.indexedSlice(ia, al)
 	}
 	l := x.InnermostLoop(ia.Block())
-	if l == nil {
-		return nil, nil, false
-	}
-	// the index cell must be advanced in this loop's header
-	adv := false
-	for _, st := range x.stores[al] {
-		if st.Block() == l.Head {
-			adv = true
+	for l != nil {
+		// the index cell must be advanced in this loop's header
+		for _, st := range x.stores[al] {
+			if st.Block() == l.Head {
+				return ia.X, l, true
+			}
 		}
+		l = x.parentLoop(l)
 	}
-	if !adv {
-		return nil, nil, false
-	}
-	return ia.X, l, true
+	return nil, nil, false
 }
 
-// rangedMap: if v is the value variable of `for _, e := range M` over a map
-// (naive SSA: extract (next it) #2 with it = range M), return M and the loop.
+// parentLoop returns the innermost loop strictly containing l.
+func (x *FnIndex) parentLoop(l *Loop) *Loop {
+	var best *Loop
+	for _, o := range x.Loops(l.Head.Parent()) {
+		if o != l && o.Blocks[l.Head] && len(o.Blocks) > len(l.Blocks) {
+			if best == nil || len(o.Blocks) < len(best.Blocks) {
+				best = o
+			}
+		}
+	}
+	return best
+}
+
+// counted describes `for i := c0; i < bound; i++`: the counter cell is set to
+// the constant c0 before the loop and incremented by one exactly once per
+// iteration (in a block every back edge passes), and the loop header stays in
+// the loop exactly while counter < bound (+ boundAdd for <=).
+type counted struct {
+	cell     *ssa.Alloc
+	loop     *Loop
+	start    int64
+	bound    ssa.Value
+	boundAdd int64
+}
+
+func (x *FnIndex) countedLoop(cell *ssa.Alloc) *counted {
+	fn := cell.Parent()
+	for _, l := range x.Loops(fn) {
+		var inc *ssa.Store
+		var inits []*ssa.Store
+		bad := false
+		for _, st := range x.stores[cell] {
+			if st.Parent() != fn {
+				bad = true
+				continue
+			}
+			if l.Blocks[st.Block()] {
+				if inc != nil {
+					bad = true
+				}
+				inc = st
+			} else {
+				inits = append(inits, st)
+			}
+		}
+		if bad || inc == nil || len(inits) == 0 {
+			continue
+		}
+		bo, ok := inc.Val.(*ssa.BinOp)
+		if !ok || bo.Op != token.ADD || x.directCell(bo.X) != cell {
+			continue
+		}
+		if k, isK := constInt(bo.Y); !isK || k != 1 {
+			continue
+		}
+		perIter := true
+		for _, latch := range l.Latches {
+			if !inc.Block().Dominates(latch) {
+				perIter = false
+			}
+		}
+		if !perIter {
+			continue
+		}
+		// the value on entry: one constant
+		var c0 int64
+		okInit := true
+		for i, st := range inits {
+			k, isK := constInt(st.Val)
+			if !isK || (i > 0 && k != c0) || k < 0 {
+				okInit = false
+			}
+			c0 = k
+		}
+		// the nearest init must dominate the header (the loop is entered with it)
+		if okInit {
+			dom := false
+			for _, st := range inits {
+				if st.Block().Dominates(l.Head) {
+					dom = true
+				}
+			}
+			okInit = dom
+		}
+		if !okInit || len(l.Head.Instrs) == 0 || len(l.Head.Succs) != 2 {
+			continue
+		}
+		iff, ok := l.Head.Instrs[len(l.Head.Instrs)-1].(*ssa.If)
+		if !ok {
+			continue
+		}
+		cb, ok := iff.Cond.(*ssa.BinOp)
+		if !ok {
+			continue
+		}
+		stayOnTrue := l.Blocks[l.Head.Succs[0]] && !l.Blocks[l.Head.Succs[1]]
+		stayOnFalse := l.Blocks[l.Head.Succs[1]] && !l.Blocks[l.Head.Succs[0]]
+		isCtr := func(v ssa.Value) bool { return x.directCell(x.lastLoad(v)) == cell }
+		c := &counted{cell: cell, loop: l, start: c0}
+		switch {
+		case stayOnTrue && cb.Op == token.LSS && isCtr(cb.X):
+			c.bound = cb.Y
+		case stayOnTrue && cb.Op == token.GTR && isCtr(cb.Y):
+			c.bound = cb.X
+		case stayOnTrue && cb.Op == token.LEQ && isCtr(cb.X):
+			c.bound, c.boundAdd = cb.Y, 1
+		case stayOnTrue && cb.Op == token.GEQ && isCtr(cb.Y):
+			c.bound, c.boundAdd = cb.X, 1
+		case stayOnFalse && cb.Op == token.GEQ && isCtr(cb.X):
+			c.bound = cb.Y
+		case stayOnFalse && cb.Op == token.LEQ && isCtr(cb.Y):
+			c.bound = cb.X
+		case stayOnFalse && cb.Op == token.GTR && isCtr(cb.X):
+			c.bound, c.boundAdd = cb.Y, 1
+		case stayOnFalse && cb.Op == token.LSS && isCtr(cb.Y):
+			c.bound, c.boundAdd = cb.X, 1
+		default:
+			continue
+		}
+		return c
+	}
+	return nil
+}
+
+// indexedSlice recognises the element of an index loop, `s[i]` inside
+// `for i := c0; i < n; i++`, as the element of ranging s[c0:n] (s itself when
+// c0 == 0 and n == len(s)): the loop visits exactly those elements, in order.
+// The bounds are expressed by a Slice value that exists only for the analysis.
+func (x *FnIndex) indexedSlice(ia *ssa.IndexAddr, ctr *ssa.Alloc) (ssa.Value, *Loop, bool) {
+	c := x.countedLoop(ctr)
+	if c == nil || !c.loop.Blocks[ia.Block()] {
+		return nil, nil, false
+	}
+	if _, isSlice := ia.X.Type().Underlying().(*types.Slice); !isSlice {
+		return nil, nil, false
+	}
+	// the slice must be the same on every iteration: a local not assigned in the loop,
+	// or a path read from such
+	if cell := x.Cell(ia.X); cell != nil {
+		for _, st := range x.stores[cell] {
+			if c.loop.Blocks[st.Block()] && st.Parent() == cell.Parent() {
+				return nil, nil, false
+			}
+		}
+	}
+	key := fmt.Sprintf("%p/%p", ia.X, c)
+	if v, ok := x.virtSlices[key]; ok {
+		return v, c.loop, true
+	}
+	boundIsLen := false
+	if c.boundAdd == 0 {
+		if a, isLen := builtinCall(x.Origin(c.bound), "len"); isLen && x.sameValue(a[0], ia.X) {
+			boundIsLen = true
+		}
+	}
+	var out ssa.Value = ia.X
+	if c.start != 0 || !boundIsLen {
+		sl := &ssa.Slice{X: ia.X}
+		if c.start != 0 {
+			sl.Low = ssa.NewConst(constant.MakeInt64(c.start), types.Typ[types.Int])
+		}
+		if !boundIsLen {
+			if c.boundAdd != 0 {
+				return nil, nil, false
+			}
+			sl.High = c.bound
+		}
+		ssa.XSetType(sl, ia.X.Type())
+		ssa.XSetPos(sl, ia.Pos())
+		out = sl
+	}
+	if x.virtSlices == nil {
+		x.virtSlices = map[string]ssa.Value{}
+	}
+	x.virtSlices[key] = out
+	return out, c.loop, true
+}
+
 func (x *FnIndex) rangedMap(v ssa.Value) (ssa.Value, *Loop, bool) {
 	v = x.Origin(v)
 	ex, ok := v.(*ssa.Extract)
@@ -1177,6 +1891,33 @@ func (l linform) String() string {
 func atomForm(a string) linform { return linform{terms: map[string]int64{a: 1}} }
 func constForm(k int64) linform { return linform{k: k, terms: map[string]int64{}} }
 
+// allocName names a variable cell by its variable and declaration position;
+// copies of one declaration (a helper inlined at several places) are numbered.
+func (x *FnIndex) allocName(al *ssa.Alloc) string {
+	if x.allocNames == nil {
+		x.allocNames = map[*ssa.Alloc]string{}
+		for _, f := range x.Fns {
+			seen := map[string]int{}
+			for _, b := range f.Blocks {
+				for _, in := range b.Instrs {
+					if a, ok := in.(*ssa.Alloc); ok {
+						n := fmt.Sprintf("%s@%d", a.Comment, a.Pos())
+						seen[n]++
+						if seen[n] > 1 {
+							n = fmt.Sprintf("%s#%d", n, seen[n])
+						}
+						x.allocNames[a] = n
+					}
+				}
+			}
+		}
+	}
+	if n, ok := x.allocNames[al]; ok {
+		return n
+	}
+	return fmt.Sprintf("%s@%d", al.Comment, al.Pos())
+}
+
 // canon names a value for use as an atom: parameters, field paths, variable
 // cells (by declaration position, so that same-named locals differ).
 func (x *FnIndex) canon(v ssa.Value) string {
@@ -1191,7 +1932,7 @@ func (x *FnIndex) canon(v ssa.Value) string {
 			a := x.ResolveAddr(t.X)
 			switch at := a.(type) {
 			case *ssa.Alloc:
-				return fmt.Sprintf("%s@%d", at.Comment, at.Pos())
+				return x.allocName(at)
 			case *ssa.FieldAddr:
 				return x.canon(at.X) + "." + fieldName(at.X.Type(), at.Field)
 			case *ssa.IndexAddr:
@@ -1247,10 +1988,12 @@ func (x *FnIndex) symInt(v ssa.Value) linform {
 	return atomForm(x.canon(v))
 }
 
-// sliceInterval describes S as base[lo:hi).
+// sliceInterval describes S as base[lo:hi). The base is the variable read (or
+// the field path) the slice expressions start from, not the value that
+// variable happens to hold.
 func (x *FnIndex) sliceInterval(s ssa.Value) (base ssa.Value, lo, hi linform) {
-	s = x.Origin(s)
-	if sl, ok := s.(*ssa.Slice); ok {
+	o := x.Origin(s)
+	if sl, ok := o.(*ssa.Slice); ok {
 		if _, isArr := sl.X.Type().Underlying().(*types.Pointer); !isArr {
 			b, lo0, hi0 := x.sliceInterval(sl.X)
 			lo = lo0
@@ -1264,7 +2007,17 @@ func (x *FnIndex) sliceInterval(s ssa.Value) (base ssa.Value, lo, hi linform) {
 			return b, lo, hi
 		}
 	}
-	return s, constForm(0), atomForm("len(" + x.canon(s) + ")")
+	if mk, isMk := o.(*ssa.MakeSlice); isMk {
+		// a variable holding a freshly made slice: the variable is the base,
+		// its length is the length it was made with
+		var last *ssa.UnOp
+		x.originTrace(s, func(u *ssa.UnOp) { last = u })
+		if last != nil {
+			return last, constForm(0), x.symInt(mk.Len)
+		}
+		return o, constForm(0), x.symInt(mk.Len)
+	}
+	return o, constForm(0), atomForm("len(" + x.canon(o) + ")")
 }
 
 func (x *FnIndex) symLen(s ssa.Value) linform {
@@ -1470,4 +2223,468 @@ func (l *Loop) onlyNormalExit() bool {
 		}
 	}
 	return true
+}
+
+// ---- specialised reachability ---------------------------------------------------
+
+// reachUnder explores fn's control flow with one integer quantity (the values
+// v with isQ(v)) fixed to k: a branch that compares the quantity with a
+// constant (either way round, any comparison operator, negated or not) takes
+// its determined edge, every other branch both. It returns the reachable
+// blocks. This decides "for which values does the function get here" without
+// depending on how the tests are written (if-chain, switch, != with early
+// return, helper).
+func (x *FnIndex) reachUnder(fn *ssa.Function, isQ func(ssa.Value) bool, k int64) map[*ssa.BasicBlock]bool {
+	var eval func(v ssa.Value, d int) (bool, bool)
+	eval = func(v ssa.Value, d int) (bool, bool) {
+		if d > 6 {
+			return false, false
+		}
+		v = x.Origin(v)
+		switch t := v.(type) {
+		case *ssa.Const:
+			return constBool(t)
+		case *ssa.UnOp:
+			if t.Op == token.NOT {
+				if b, ok := eval(t.X, d+1); ok {
+					return !b, true
+				}
+			}
+		case *ssa.BinOp:
+			var c int64
+			op := t.Op
+			if kc, ok := constInt(x.Origin(t.Y)); ok && isQ(t.X) {
+				c = kc
+			} else if kc, ok := constInt(x.Origin(t.X)); ok && isQ(t.Y) {
+				c = kc
+				switch op {
+				case token.LSS:
+					op = token.GTR
+				case token.LEQ:
+					op = token.GEQ
+				case token.GTR:
+					op = token.LSS
+				case token.GEQ:
+					op = token.LEQ
+				}
+			} else {
+				return false, false
+			}
+			switch op {
+			case token.EQL:
+				return k == c, true
+			case token.NEQ:
+				return k != c, true
+			case token.LSS:
+				return k < c, true
+			case token.LEQ:
+				return k <= c, true
+			case token.GTR:
+				return k > c, true
+			case token.GEQ:
+				return k >= c, true
+			}
+		}
+		return false, false
+	}
+	reach := map[*ssa.BasicBlock]bool{}
+	work := []*ssa.BasicBlock{fn.Blocks[0]}
+	for len(work) > 0 {
+		b := work[len(work)-1]
+		work = work[:len(work)-1]
+		if reach[b] {
+			continue
+		}
+		reach[b] = true
+		if len(b.Instrs) > 0 {
+			if iff, ok := b.Instrs[len(b.Instrs)-1].(*ssa.If); ok && len(b.Succs) == 2 {
+				if v, known := eval(iff.Cond, 0); known {
+					if v {
+						work = append(work, b.Succs[0])
+					} else {
+						work = append(work, b.Succs[1])
+					}
+					continue
+				}
+			}
+		}
+		work = append(work, b.Succs...)
+	}
+	return reach
+}
+
+// lastLoad follows a value through copies like Origin but stops at the last
+// load of a variable cell it cannot resolve further (the variable whose
+// several possible values reach here); v itself when there is none.
+func (x *FnIndex) lastLoad(v ssa.Value) ssa.Value {
+	o := x.Origin(v)
+	if x.directCell(o) != nil {
+		return o
+	}
+	return v
+}
+
+// ---- flag-sensitive reachability ---------------------------------------------------
+
+// flagCells lists the local bool variables of fn that are only ever assigned
+// the constants true and false (`found := false; ...; found = true`).
+func (x *FnIndex) flagCells(fn *ssa.Function) []*ssa.Alloc {
+	var out []*ssa.Alloc
+	for _, b := range fn.Blocks {
+		for _, in := range b.Instrs {
+			al, ok := in.(*ssa.Alloc)
+			if !ok || al.Heap || len(x.stores[al]) == 0 {
+				continue
+			}
+			if bt, isB := al.Type().(*types.Pointer).Elem().Underlying().(*types.Basic); !isB || bt.Kind() != types.Bool {
+				continue
+			}
+			all := true
+			for _, st := range x.stores[al] {
+				if _, isC := constBool(st.Val); !isC || st.Parent() != fn {
+					all = false
+				}
+			}
+			if all && len(out) < 6 {
+				out = append(out, al)
+			}
+		}
+	}
+	return out
+}
+
+// pathExistsFlags is pathExistsEB that does not follow paths made impossible
+// by a boolean flag: it tracks the value of every flag variable (flagCells)
+// along the path and, at a branch on such a variable, takes only the edge its
+// current value selects. A flag whose value is not known on the path (nothing
+// assigned since `from`) takes both.
+func (x *FnIndex) pathExistsFlags(fn *ssa.Function, from ssa.Instruction, to func(ssa.Instruction) bool, forbidden map[edgeKey]bool, blocked func(ssa.Instruction) bool) (ssa.Instruction, bool) {
+	if from == nil {
+		return x.pathExistsFlagsAt(fn, fn.Blocks[0], 0, to, forbidden, blocked)
+	}
+	return x.pathExistsFlagsAt(fn, from.Block(), instrIdx(from)+1, to, forbidden, blocked)
+}
+
+// pathExistsFlagsAt starts at instruction number i0 of block b0 (inclusive).
+func (x *FnIndex) pathExistsFlagsAt(fn *ssa.Function, b0 *ssa.BasicBlock, i0 int, to func(ssa.Instruction) bool, forbidden map[edgeKey]bool, blocked func(ssa.Instruction) bool) (ssa.Instruction, bool) {
+	flags := x.flagCells(fn)
+	idx := map[*ssa.Alloc]int{}
+	for i, f := range flags {
+		idx[f] = i
+	}
+	pow := func(i int) int {
+		p := 1
+		for ; i > 0; i-- {
+			p *= 3
+		}
+		return p
+	}
+	get := func(st, i int) int { return (st / pow(i)) % 3 } // 0 unknown, 1 true, 2 false
+	set := func(st, i, v int) int { return st - get(st, i)*pow(i) + v*pow(i) }
+	type node struct {
+		b  *ssa.BasicBlock
+		i  int
+		st int
+	}
+	type key struct {
+		b  *ssa.BasicBlock
+		st int
+	}
+	seen := map[key]bool{}
+	work := []node{{b0, i0, 0}}
+	if i0 == 0 {
+		seen[key{b0, 0}] = true
+	}
+	for len(work) > 0 {
+		n := work[len(work)-1]
+		work = work[:len(work)-1]
+		st := n.st
+		loaded := map[ssa.Value]int{}
+		stop := false
+		for i := n.i; i < len(n.b.Instrs); i++ {
+			in := n.b.Instrs[i]
+			if to(in) {
+				return in, true
+			}
+			if blocked != nil && blocked(in) {
+				stop = true
+				break
+			}
+			switch t := in.(type) {
+			case *ssa.Store:
+				if al, ok := t.Addr.(*ssa.Alloc); ok {
+					if fi, isF := idx[al]; isF {
+						if bv, isC := constBool(t.Val); isC {
+							if bv {
+								st = set(st, fi, 1)
+							} else {
+								st = set(st, fi, 2)
+							}
+						}
+					}
+				}
+			case *ssa.UnOp:
+				if t.Op == token.MUL {
+					if al, ok := t.X.(*ssa.Alloc); ok {
+						if fi, isF := idx[al]; isF {
+							loaded[t] = get(st, fi)
+						}
+					}
+				}
+			}
+		}
+		if stop {
+			continue
+		}
+		only := -1
+		if len(n.b.Instrs) > 0 {
+			if iff, ok := n.b.Instrs[len(n.b.Instrs)-1].(*ssa.If); ok && len(n.b.Succs) == 2 {
+				cond, neg := iff.Cond, false
+				for {
+					u, isU := cond.(*ssa.UnOp)
+					if !isU || u.Op != token.NOT {
+						break
+					}
+					cond, neg = u.X, !neg
+				}
+				if v, ok := loaded[cond]; ok && v != 0 {
+					tv := v == 1
+					if neg {
+						tv = !tv
+					}
+					if tv {
+						only = 0
+					} else {
+						only = 1
+					}
+				}
+			}
+		}
+		for k, s := range n.b.Succs {
+			if forbidden[edgeKey{n.b, k}] || (only >= 0 && k != only) {
+				continue
+			}
+			if !seen[key{s, st}] {
+				seen[key{s, st}] = true
+				work = append(work, node{s, 0, st})
+			}
+		}
+	}
+	return nil, false
+}
+
+// valuesVia lists the values v can have at instruction `at` on executions that
+// passed instruction src before: the values of PossibleValues whose store
+// lies on a path src -> store -> at, or that were stored before src and are
+// not overwritten between src and at.
+func (x *FnIndex) valuesVia(fn *ssa.Function, src, at ssa.Instruction, v ssa.Value) []ssa.Value {
+	var out []ssa.Value
+	for _, pv := range x.PossibleValues(v) {
+		if pv.Store == nil || pv.Outside {
+			out = append(out, pv.V)
+			continue
+		}
+		cell, _ := x.ResolveAddr(pv.Store.Addr).(*ssa.Alloc)
+		other := func(in ssa.Instruction) bool {
+			return cell != nil && in != ssa.Instruction(pv.Store) && x.isStoreTo(in, cell)
+		}
+		isS := func(in ssa.Instruction) bool { return in == ssa.Instruction(pv.Store) }
+		isAt := func(in ssa.Instruction) bool { return in == at }
+		isSrc := func(in ssa.Instruction) bool { return in == src }
+		_, after := pathExists(fn, src, isS, nil)
+		if after {
+			if _, ok := pathExists(fn, pv.Store, isAt, other); ok {
+				out = append(out, pv.V)
+				continue
+			}
+		}
+		if _, before := pathExists(fn, pv.Store, isSrc, other); before {
+			if _, ok := pathExists(fn, src, isAt, func(in ssa.Instruction) bool { return other(in) || isS(in) }); ok {
+				out = append(out, pv.V)
+			}
+		}
+	}
+	return out
+}
+
+// reachesOnlyVia: the value pv of a variable read at `at` gets there, on
+// executions that passed src, only along paths that take one of the edges
+// `need` after src. pv.Store == nil means the value is used directly (no
+// variable in between). Used for "this value is used only when that test
+// had this outcome", whether the use sits inside the branch or the value was
+// first put in a variable there.
+func (x *FnIndex) reachesOnlyVia(fn *ssa.Function, src ssa.Instruction, pv PVal, at ssa.Instruction, need map[edgeKey]bool) bool {
+	if len(need) == 0 {
+		return false
+	}
+	reSrc := func(i ssa.Instruction) bool { return i == src }
+	isAt := func(i ssa.Instruction) bool { return i == at }
+	if pv.Store == nil {
+		_, bad := pathExistsEB(fn, src, isAt, need, reSrc)
+		return !bad
+	}
+	cell, _ := x.ResolveAddr(pv.Store.Addr).(*ssa.Alloc)
+	_, r1 := pathExistsEB(fn, src, func(i ssa.Instruction) bool { return i == ssa.Instruction(pv.Store) }, need, reSrc)
+	_, r2 := pathExistsEB(fn, pv.Store, isAt, need, func(i ssa.Instruction) bool {
+		return reSrc(i) || (cell != nil && i != ssa.Instruction(pv.Store) && x.isStoreTo(i, cell))
+	})
+	return !(r1 && r2)
+}
+
+// nilEdges lists, over all branches of fn that test `isSubject(v)` against nil,
+// the edges on which the subject is nil and those on which it is not.
+func (x *FnIndex) nilEdges(fn *ssa.Function, isSubject func(ssa.Value) bool) (isNil, notNil map[edgeKey]bool) {
+	isNil, notNil = map[edgeKey]bool{}, map[edgeKey]bool{}
+	for _, b := range fn.Blocks {
+		if len(b.Instrs) == 0 || len(b.Succs) != 2 {
+			continue
+		}
+		iff, ok := b.Instrs[len(b.Instrs)-1].(*ssa.If)
+		if !ok {
+			continue
+		}
+		cond, pol := iff.Cond, true
+		for {
+			u, isU := cond.(*ssa.UnOp)
+			if !isU || u.Op != token.NOT {
+				break
+			}
+			cond, pol = x.Origin(u.X), !pol
+		}
+		s, neq, ok := nilCheck(cond)
+		if !ok || !isSubject(s) {
+			continue
+		}
+		nonNilOnTrue := neq == pol
+		if nonNilOnTrue {
+			notNil[edgeKey{b, 0}], isNil[edgeKey{b, 1}] = true, true
+		} else {
+			isNil[edgeKey{b, 0}], notNil[edgeKey{b, 1}] = true, true
+		}
+	}
+	return
+}
+
+// guardGivesLE: the guard (a comparison of two integer expressions, taken with
+// its outcome) implies w <= 0, whatever way round and with whichever operator
+// it is written: `n+m > len` false, `len < n+m` false, `n+m <= len` true and
+// `len >= n+m` true all give n+m-len <= 0.
+func (x *FnIndex) guardGivesLE(g Guard, w linform) bool {
+	bo, ok := g.Cond.(*ssa.BinOp)
+	if !ok {
+		return false
+	}
+	if bt, isB := bo.X.Type().Underlying().(*types.Basic); !isB || bt.Info()&types.IsInteger == 0 {
+		return false
+	}
+	d := x.symInt(bo.X).add(x.symInt(bo.Y), -1) // X - Y  OP  0
+	op := bo.Op
+	if !g.Pol {
+		neg := map[token.Token]token.Token{token.LSS: token.GEQ, token.LEQ: token.GTR, token.GTR: token.LEQ, token.GEQ: token.LSS, token.EQL: token.NEQ, token.NEQ: token.EQL}
+		n, ok := neg[op]
+		if !ok {
+			return false
+		}
+		op = n
+	}
+	minus := func(l linform) linform { return constForm(0).add(l, -1) }
+	// facts of the form e <= c
+	type fact struct {
+		e linform
+		c int64
+	}
+	var facts []fact
+	switch op {
+	case token.LSS:
+		facts = []fact{{d, -1}}
+	case token.LEQ:
+		facts = []fact{{d, 0}}
+	case token.GTR:
+		facts = []fact{{minus(d), -1}}
+	case token.GEQ:
+		facts = []fact{{minus(d), 0}}
+	case token.EQL:
+		facts = []fact{{d, 0}, {minus(d), 0}}
+	default:
+		return false
+	}
+	for _, f := range facts {
+		diff := w.add(f.e, -1)
+		if len(diff.terms) == 0 && f.c+diff.k <= 0 {
+			return true
+		}
+	}
+	return false
+}
+
+// sameIndex: the element address ia and the ranged element value v use the
+// same position of the same loop (dst[k] = src[k] with k the loop's counter).
+func (x *FnIndex) sameIndex(ia *ssa.IndexAddr, v ssa.Value) bool {
+	u, ok := x.Origin(v).(*ssa.UnOp)
+	if !ok || u.Op != token.MUL {
+		return false
+	}
+	src, ok := u.X.(*ssa.IndexAddr)
+	if !ok {
+		return false
+	}
+	a, b := x.readsRangeIndex(ia.Index), x.readsRangeIndex(src.Index)
+	if a != nil && a == b {
+		return true
+	}
+	ca, cb := x.directCell(x.lastLoad(ia.Index)), x.directCell(x.lastLoad(src.Index))
+	return ca != nil && ca == cb
+}
+
+// iterForm expresses an integer value computed inside a loop as
+// base + (number of the iteration, counted from 0), for a range loop over a
+// slice or a counted loop (see countedLoop); count is how many iterations the
+// loop makes. `tag: firstTag + int64(i)` in `for i := range s` gives
+// (firstTag, len(s)); `tag: j + poolMinLen` in `for j := 0; j < n; j++` gives
+// (poolMinLen, n).
+func (x *FnIndex) iterForm(fn *ssa.Function, v ssa.Value) (l *Loop, base, count linform, ok bool) {
+	f := x.symInt(v)
+	for _, b := range fn.Blocks {
+		for _, in := range b.Instrs {
+			al, isAl := in.(*ssa.Alloc)
+			if !isAl {
+				continue
+			}
+			name := x.allocName(al)
+			if f.terms[name] != 1 {
+				continue
+			}
+			rest := f.add(atomForm(name), -1)
+			if al.Comment == "rangeindex" {
+				for _, lp := range x.Loops(fn) {
+					adv := false
+					for _, st := range x.stores[al] {
+						if st.Block() == lp.Head {
+							adv = true
+						}
+					}
+					if !adv || len(lp.Head.Instrs) == 0 {
+						continue
+					}
+					iff, isIf := lp.Head.Instrs[len(lp.Head.Instrs)-1].(*ssa.If)
+					if !isIf {
+						continue
+					}
+					bo, isB := iff.Cond.(*ssa.BinOp)
+					if !isB || bo.Op != token.LSS {
+						continue
+					}
+					// in the body the cell holds the iteration number; a read resolved to the
+					// header's `old+1` has the atom (old value) plus one
+					return lp, rest.add(constForm(1), -1), x.symInt(bo.Y), true
+				}
+				continue
+			}
+			if cl := x.countedLoop(al); cl != nil {
+				cnt := x.symInt(cl.bound).add(constForm(cl.boundAdd-cl.start), 1)
+				return cl.loop, rest.add(constForm(cl.start), 1), cnt, true
+			}
+		}
+	}
+	return nil, linform{}, linform{}, false
 }
